@@ -88,8 +88,11 @@ pub fn note_input(label: &str) {
 /// then finds in these files what was in flight, and re-runs each candidate alone
 /// (`celharness one <file>`) to name the input that kills the process.
 fn inflight_write(ext: &str, text: &str) {
+    use std::os::unix::fs::FileExt;
     thread_local! {
-        static SLOT: std::cell::RefCell<Option<String>> = const { std::cell::RefCell::new(None) };
+        // (label file, case file), opened once per thread; a record is an 8-byte little-endian
+        // length followed by the text, rewritten in place at offset 0 (one `pwrite` per input)
+        static SLOT: std::cell::RefCell<Option<(std::fs::File, std::fs::File)>> = const { std::cell::RefCell::new(None) };
     }
     static NEXT: std::sync::atomic::AtomicUsize = std::sync::atomic::AtomicUsize::new(0);
     let Some(dir) = std::env::var_os("CEL_INFLIGHT_DIR") else { return };
@@ -97,9 +100,19 @@ fn inflight_write(ext: &str, text: &str) {
         let mut s = s.borrow_mut();
         if s.is_none() {
             let n = NEXT.fetch_add(1, std::sync::atomic::Ordering::Relaxed);
-            *s = Some(format!("{}/t{n}", dir.to_string_lossy()));
+            let base = format!("{}/t{n}", dir.to_string_lossy());
+            if let (Ok(a), Ok(b)) = (std::fs::File::create(format!("{base}.label")), std::fs::File::create(format!("{base}.case"))) {
+                *s = Some((a, b));
+            }
         }
-        let _ = std::fs::write(format!("{}.{ext}", s.as_ref().unwrap()), text);
+        if let Some((label, case)) = s.as_ref() {
+            let f = if ext == "label" { label } else { case };
+            let bytes = text.as_bytes();
+            let mut rec = Vec::with_capacity(bytes.len() + 8);
+            rec.extend_from_slice(&(bytes.len() as u64).to_le_bytes());
+            rec.extend_from_slice(bytes);
+            let _ = f.write_all_at(&rec, 0);
+        }
     });
 }
 
